@@ -5,6 +5,7 @@ import (
 	"math/rand"
 	"strings"
 	"sync"
+	"sync/atomic"
 	"time"
 
 	"github.com/yandex/mysync/internal/config"
@@ -15,16 +16,17 @@ import (
 // C19 — replication optimisation never leaves untracked relaxed durability.
 
 type c19Spec struct {
-	N        int        `json:"n_ha"`
-	Lags     []*float64 `json:"replica_lag"`
-	Reg      []string   `json:"registry"` // per replica: none new enabled
-	PreRelax []bool     `json:"relaxed_by_operator"`
-	Ghost    bool       `json:"unregistered_host_in_registry"`
-	FailEach int        `json:"fail_every_nth_settings_statement"`
-	Event    string     `json:"event"` // steady converge diverge operator_enable operator_disable switch_to_lagging switch_from offline_by_lag register_just_above_high
-	Stopped  int        `json:"replica_with_stopped_replication"`
-	NoSemi   bool       `json:"semi_sync_off"`   // the pre-switchover turbo phase exists only with semi-sync; without it the switchover itself must switch optimisation off
-	Subject  int        `json:"subject_replica"` // register_just_above_high: which replica (the daemons start 0.7 s apart, so this varies the phase between its health checks and the manager's ticks)
+	N         int        `json:"n_ha"`
+	Lags      []*float64 `json:"replica_lag"`
+	Reg       []string   `json:"registry"` // per replica: none new enabled
+	PreRelax  []bool     `json:"relaxed_by_operator"`
+	Ghost     bool       `json:"unregistered_host_in_registry"`
+	FailEach  int        `json:"fail_every_nth_settings_statement"`
+	Event     string     `json:"event"` // steady converge diverge operator_enable operator_disable switch_to_lagging switch_from offline_by_lag register_just_above_high
+	Stopped   int        `json:"replica_with_stopped_replication"`
+	NoSemi    bool       `json:"semi_sync_off"`                                // the pre-switchover turbo phase exists only with semi-sync; without it the switchover itself must switch optimisation off
+	SlowTurbo bool       `json:"target_answers_slowly_during_the_turbo_phase"` // the first two settings statements reaching the target after the turbo phase registered it take 4 s each
+	Subject   int        `json:"subject_replica"`                              // register_just_above_high: which replica (the daemons start 0.7 s apart, so this varies the phase between its health checks and the manager's ticks)
 }
 
 var c19Events = []string{"steady", "converge", "diverge", "operator_enable", "operator_disable", "switch_to_lagging", "switch_from", "offline_by_lag", "register_just_above_high"}
@@ -52,6 +54,13 @@ func c19Gen(seed int64, idx int) c19Spec {
 	sp.NoSemi = r.Intn(3) == 0
 	if sp.Event == "switch_to_lagging" || sp.Event == "switch_from" {
 		sp.NoSemi = (idx/len(c19Events))%2 == 0
+	}
+	if sp.Event == "switch_to_lagging" && !sp.NoSemi && (idx/(2*len(c19Events)))%2 == 0 {
+		sp.SlowTurbo = true
+		sp.Reg[0], sp.PreRelax[0], sp.FailEach = "none", false, 0
+		if sp.Stopped == 0 {
+			sp.Stopped = -1
+		}
 	}
 	if sp.Event == "register_just_above_high" {
 		// the first replica is clean, unregistered and not lagging until the event; no failing statements
@@ -107,7 +116,22 @@ func c19Run(u *Unit) {
 		}
 		var fmu sync.Mutex
 		nset := 0
+		var turboArmed atomic.Int32
+		if sp.SlowTurbo {
+			s.OnZK(func(r fakezk.Rec) {
+				if r.Op == "create" && r.Path == NS+"/optimization_nodes/"+hosts[1] && isDaemon(s, r.Client) {
+					if _, pend := s.Cached("switch"); pend && turboArmed.CompareAndSwap(0, 1) {
+						sc.Cover("turbo-phase-with-slow-target")
+					}
+				}
+			})
+		}
 		w.Fault = func(c *world.StmtCtx) world.FaultAction {
+			if sp.SlowTurbo && c.Host == hosts[1] && (c.Class == "set_sync_binlog" || c.Class == "set_flush") && strings.HasPrefix(c.Caller, "mysync_") {
+				if n := turboArmed.Load(); n >= 1 && n <= 2 && turboArmed.CompareAndSwap(n, n+1) {
+					return world.FaultAction{Kind: "slow", Delay: 4 * time.Second}
+				}
+			}
 			if sp.Event == "register_just_above_high" && c.Class != "conn_init" && strings.HasPrefix(c.Caller, "mysync_") && c.Caller != "mysync_"+c.Host {
 				// a slow manager: every statement it sends to another host takes 50-200 ms, an iteration takes seconds, and
 				// the health records it read at the start are stale by the time it acts on them
@@ -162,6 +186,10 @@ func c19Run(u *Unit) {
 			ms := w.Servers[s.CachedMaster()]
 			if ms == nil || !ms.Up {
 				return
+			}
+			// the master itself never carries settings relaxed by mysync (nothing tracks, and nothing would ever restore, them)
+			if (ms.SyncBinlog > 1 && strings.HasPrefix(ms.SyncBinlogWriter, "mysync_")) || (ms.FlushLog != 1 && strings.HasPrefix(ms.FlushLogWriter, "mysync_")) {
+				sc.Violate("C19", "master-carries-relaxed-settings", fmt.Sprintf("after a completed manager iteration of %s the master %s runs with sync_binlog=%d (written by %s) innodb_flush_log_at_trx_commit=%d (written by %s)", inst, ms.Host, ms.SyncBinlog, ms.SyncBinlogWriter, ms.FlushLog, ms.FlushLogWriter), w.DescribeLocked())
 			}
 			var relaxed, untracked []string
 			for _, h := range hosts {
@@ -362,7 +390,7 @@ func lagStr(l []*float64) string {
 func init() {
 	register(&Prop{ID: "C19", Units: func(tier string) int { return tierN(tier, 270, 6300) }, Run: c19Run,
 		Floor: func(string) []string {
-			return []string{"one-replica-optimizing", "registry-drop", "drop-of-unregistered-host", "promotion", "converged-or-unknown-lag-host", "registered-just-above-the-high-mark"}
+			return []string{"one-replica-optimizing", "registry-drop", "drop-of-unregistered-host", "promotion", "converged-or-unknown-lag-host", "registered-just-above-the-high-mark", "turbo-phase-with-slow-target"}
 		},
 		Rule: "scenario = 3-5 node cluster (semi-sync off in a third) with per-replica lag around both marks {10,59,60,119,120,121,500}, a replica with stopped replication (unknown lag), initial registry entries (none / new / enabled, plus an unregistered host), settings already relaxed by the operator, every k-th settings statement failing, and an event (steady, lags converge, lags diverge, operator enables all, operator disables all, planned switchover to a lagging target, switchover from the master, replica taken offline by lag, replica registered while its falling lag is just above the high mark under a slow manager whose health-record reads are stale when it acts); oracles on ground truth: after every completed manager iteration that ran its sync at most one replica carries relaxed settings last written by mysync and none untracked, every registry drop by a daemon finds the host's settings equal to the master's (or the host unregistered), promotions find the target unrelaxed and unregistered, a freeze begins with no relaxed member, converged / unknown-lag hosts end restored and dropped; distinct by the cover tuple"})
 }
